@@ -28,12 +28,19 @@ def run_t2(prop, tier, seed, replay=None):
     cmd = [C.VENV_PY, "-m", "vlib.t2run", prop, "--tier", tier, "--seed", str(seed), "--out", outp]
     if replay:
         cmd += ["--replay", replay]
-    p = subprocess.run(cmd, cwd=C.VERIF, env=C.child_env(), stdout=subprocess.PIPE, stderr=subprocess.STDOUT, text=True)
+    budget = 1500 if tier == "quick" else 4 * 3600
+    try:
+        p = subprocess.run(cmd, cwd=C.VERIF, env=C.child_env(), stdout=subprocess.PIPE, stderr=subprocess.STDOUT, text=True,
+                           timeout=budget)
+        note = "rc=%s: %s" % (p.returncode, p.stdout[-2000:])
+    except subprocess.TimeoutExpired:
+        subprocess.run(["pkill", "-f", "vlib.t2run %s " % prop])
+        note = "the bounded tier did not finish within %d s (a hang inside compiled code cannot be interrupted)" % budget
     try:
         with open(outp) as f:
             res = json.load(f)
     except Exception:
-        res = {"crashes": ["t2 child produced no result (rc=%s): %s" % (p.returncode, p.stdout[-2000:])],
+        res = {"crashes": ["t2 child produced no result (%s)" % note],
                "fails": [], "evaluations": 0, "keys": 0, "samples": [], "cases": 0}
     finally:
         if os.path.exists(outp):
